@@ -1,5 +1,6 @@
 /- REGENERATED on every run by harness/extract.py: leaf decision functions translated from the Python AST of /repo. -/
 import TealerModel.Syntax
+import TealerModel.OSet
 import TealerModel.Generated.Consts
 namespace Tealer.Generated
 
@@ -19,5 +20,79 @@ def feeInter (a b : GFeeValue) : GFeeValue :=
 /-- translated from fee_field.FeeField._get_asserted_max_value -/
 def feeAssertedMax (comparison_ins : Cmp) (compared_value : GFeeValue) : GFeeValue × GFeeValue :=
   (if (comparison_ins == .eq) then (compared_value, ({ isUnknown := false, value := Tealer.Generated.MAX_UINT64 } : GFeeValue)) else (if (comparison_ins == .neq) then (({ isUnknown := false, value := Tealer.Generated.MAX_UINT64 } : GFeeValue), compared_value) else (if (comparison_ins == .lt) then (if compared_value.isUnknown then (compared_value, ({ isUnknown := false, value := Tealer.Generated.MAX_UINT64 } : GFeeValue)) else (({ isUnknown := false, value := (max 0 (compared_value.value - 1)) } : GFeeValue), ({ isUnknown := false, value := Tealer.Generated.MAX_UINT64 } : GFeeValue))) else (if (comparison_ins == .le) then (compared_value, ({ isUnknown := false, value := Tealer.Generated.MAX_UINT64 } : GFeeValue)) else (if (comparison_ins == .gt) then (({ isUnknown := false, value := Tealer.Generated.MAX_UINT64 } : GFeeValue), compared_value) else (if (comparison_ins == .ge) then (if compared_value.isUnknown then (({ isUnknown := false, value := Tealer.Generated.MAX_UINT64 } : GFeeValue), compared_value) else (({ isUnknown := false, value := Tealer.Generated.MAX_UINT64 } : GFeeValue), ({ isUnknown := false, value := (max 0 (compared_value.value - 1)) } : GFeeValue))) else (({ isUnknown := false, value := Tealer.Generated.MAX_UINT64 } : GFeeValue), ({ isUnknown := false, value := Tealer.Generated.MAX_UINT64 } : GFeeValue))))))))
+
+/-- translated from int_fields.GroupIndices._get_asserted_int_values -/
+def intAssertedValues (comparison_ins : Cmp) (compared_int : Nat) (universal_set : List Nat) : List Nat :=
+  (let U := universal_set; (if (comparison_ins == .eq) then [compared_int] else (if (comparison_ins == .neq) then (let U := (if (U.contains compared_int) then U.erase compared_int else U); U) else (if (comparison_ins == .lt) then (U.filter fun i => (decide (i < compared_int))) else (if (comparison_ins == .le) then (U.filter fun i => (decide (i ≤ compared_int))) else (if (comparison_ins == .gt) then (U.filter fun i => (decide (i > compared_int))) else (if (comparison_ins == .ge) then (U.filter fun i => (decide (i ≥ compared_int))) else U)))))))
+
+/-- translated from AddrFields._union -/
+def addrUnion (a b : List String) : List String :=
+  (if ((a.contains Tealer.Generated.ANY_ADDRESS) || (b.contains Tealer.Generated.ANY_ADDRESS)) then (Tealer.OSet.ofList [Tealer.Generated.ANY_ADDRESS]) else (if ((a.contains Tealer.Generated.NO_ADDRESS) && (b.contains Tealer.Generated.NO_ADDRESS)) then (Tealer.OSet.ofList [Tealer.Generated.NO_ADDRESS]) else (if (a.contains Tealer.Generated.NO_ADDRESS) then b else (if (b.contains Tealer.Generated.NO_ADDRESS) then a else (Tealer.OSet.union a b)))))
+
+/-- translated from AddrFields._intersection -/
+def addrInter (a b : List String) : List String :=
+  (if ((a.contains Tealer.Generated.NO_ADDRESS) || (b.contains Tealer.Generated.NO_ADDRESS)) then (Tealer.OSet.ofList [Tealer.Generated.NO_ADDRESS]) else (if ((a.contains Tealer.Generated.ANY_ADDRESS) && (b.contains Tealer.Generated.ANY_ADDRESS)) then (Tealer.OSet.ofList [Tealer.Generated.ANY_ADDRESS]) else (if (a.contains Tealer.Generated.ANY_ADDRESS) then b else (if (b.contains Tealer.Generated.ANY_ADDRESS) then a else (Tealer.OSet.inter a b)))))
+
+/-- translated from GroupIndices._union -/
+def intUnion (a b : List Nat) : List Nat :=
+  (Tealer.OSet.union a b)
+
+/-- translated from GroupIndices._intersection -/
+def intInter (a b : List Nat) : List Nat :=
+  (Tealer.OSet.inter a b)
+
+/-- translated from TxnType._union -/
+def txnTypeUnion (a b : List Nat) : List Nat :=
+  (Tealer.OSet.union a b)
+
+/-- translated from TxnType._intersection -/
+def txnTypeInter (a b : List Nat) : List Nat :=
+  (Tealer.OSet.inter a b)
+
+/-- the fields of a block context that the detector predicates read -/
+structure GCtx where
+  rekeytoAny : Bool
+  closetoAny : Bool
+  assetclosetoAny : Bool
+  senderAny : Bool
+  types : List Nat
+  maxFee : Nat
+  maxFeeUnknown : Bool
+
+/-- translated from MissingRekeyTo.detect.checks_field (rekey-to) -/
+def checks_rekeyTo (c : GCtx) : Bool :=
+  (!c.rekeytoAny)
+
+/-- translated from CanCloseAccount.detect.checks_field (can-close-account) -/
+def checks_canCloseAccount (c : GCtx) : Bool :=
+  (!(c.closetoAny && (c.types.contains 16)))
+
+/-- translated from CanCloseAsset.detect.checks_field (can-close-asset) -/
+def checks_canCloseAsset (c : GCtx) : Bool :=
+  (!(c.assetclosetoAny && (c.types.contains 64)))
+
+/-- translated from MissingFeeCheck.detect.checks_field (missing-fee-check) -/
+def checks_feeCheck (c : GCtx) : Bool :=
+  (c.maxFeeUnknown || (decide (c.maxFee ≤ Tealer.Generated.MAX_TRANSACTION_COST)))
+
+/-- translated from IsUpdatable.detect.checks_field (is-updatable) -/
+def checks_isUpdatable (c : GCtx) : Bool :=
+  (!(c.types.contains 100))
+
+/-- translated from IsDeletable.detect.checks_field (is-deletable) -/
+def checks_isDeletable (c : GCtx) : Bool :=
+  (!(c.types.contains 101))
+
+/-- translated from AnyoneCanUpdate.detect.checks_field (unprotected-updatable) -/
+def checks_anyoneCanUpdate (c : GCtx) : Bool :=
+  (!((c.types.contains 100) && c.senderAny))
+
+/-- translated from AnyoneCanDelete.detect.checks_field (unprotected-deletable) -/
+def checks_anyoneCanDelete (c : GCtx) : Bool :=
+  (!((c.types.contains 101) && c.senderAny))
+
+/-- translated from detectors/utils.py validated_in_block -/
+def validatedInBlock {α : Type} (chk : α → Bool) (self : α) (gtxn : Nat → α) (groupIndices : List Nat) (absolute_index : Option Nat) : Bool :=
+  (if (chk self) then true else (match absolute_index with | some absolute_index => (if (chk (gtxn absolute_index)) then true else false) | none => (groupIndices.all fun i => (chk (gtxn i)))))
 
 end Tealer.Generated
